@@ -37,7 +37,7 @@ structure Pool where
   slots : Nat → Option SlotCerts
   fin : Finality.Tracker
   pr : ParentReady.Tracker
-  /-- `s2n_waiting_parent_cert`: parent ↦ child -/
+  /-- `s2n_waiting_parent_cert`: (parent, child) pairs; a parent may have several waiting children -/
   s2n : List ((Nat × Nat) × (Nat × Nat))
 
 def init : Pool where
@@ -86,6 +86,10 @@ def s2nRemove (l : List ((Nat × Nat) × (Nat × Nat))) (k : Nat × Nat) : List 
 def s2nGet (l : List ((Nat × Nat) × (Nat × Nat))) (k : Nat × Nat) : Option (Nat × Nat) :=
   (l.find? (fun e => e.1 = k)).map (·.2)
 
+/-- all children waiting for parent `k` (the map's `Vec` value, in insertion order) -/
+def s2nAll (l : List ((Nat × Nat) × (Nat × Nat))) (k : Nat × Nat) : List (Nat × Nat) :=
+  (l.filter (fun e => e.1 = k)).map (·.2)
+
 /-- the far-future bound of `add_cert` / `add_vote` -/
 def farFuture (p : Pool) : Nat := p.fin.highest + 2 * Gen.SLOTS_PER_EPOCH
 
@@ -107,6 +111,16 @@ def storeCert (c : SlotCerts) (k : CertKind) (h : Nat) : SlotCerts :=
   | .skip => { c with skip := true }
   | .fastFinal => { c with ff := some h }
   | .final => { c with fin := true }
+
+/-- `notify_waiting_children`: children below the watermark are skipped; `notify_parent_certified` panics with
+    "parent not known" when the child's parent was never registered (cannot happen: `add_block` registers it) -/
+def notifyKids (p : Pool) : List (Nat × Nat) → Option Pool
+  | [] => some p
+  | child :: rest =>
+    if child.1 < p.fin.first then notifyKids p rest
+    else
+      let cs := getSlot p child.1
+      if cs.known.contains child.2 then notifyKids (putSlot p child.1 cs) rest else none
 
 /-- the finality half of `add_valid_cert` -/
 def finalityOf (p : Pool) (k : CertKind) (slot h : Nat) : Option Finality.Res :=
@@ -134,18 +148,14 @@ def addCert (p : Pool) (k : CertKind) (slot h : Nat) : Out :=
       match r1 with
       | none => .panic
       | some (p2, a1, w1) =>
+        -- `notify_waiting_children` (notar / notar-fallback / fast-final certificates)
+        let notify (p2 : Pool) : Option Pool :=
+          let kids := s2nAll p2.s2n (slot, h)
+          let p3 := { p2 with s2n := s2nRemove p2.s2n (slot, h) }
+          notifyKids p3 kids
         match k with
         | .notar | .notarFallback =>
-          -- potentially notify the child waiting for safe-to-notar
-          let r2 : Option Pool :=
-            match s2nGet p2.s2n (slot, h) with
-            | none => some p2
-            | some child =>
-              let p3 := { p2 with s2n := s2nRemove p2.s2n (slot, h) }
-              let cs := getSlot p3 child.1
-              -- `notify_parent_certified`: panic!("parent not known")
-              if cs.known.contains child.2 then some (putSlot p3 child.1 cs) else none
-          match r2 with
+          match notify p2 with
           | none => .panic
           | some p3 =>
             match ParentReady.markNotarFallback p3.pr (slot, h) with
@@ -155,6 +165,10 @@ def addCert (p : Pool) (k : CertKind) (slot h : Nat) : Out :=
           match ParentReady.markSkipped p2.pr slot with
           | none => .panic
           | some (pr1, a2, w2) => .ok { p2 with pr := pr1 } (a1 ++ a2) (w1 ++ w2)
+        | .fastFinal =>
+          match notify p2 with
+          | none => .panic
+          | some p3 => .ok p3 a1 w1
         | _ => .ok p2 a1 w1
 
 /-- `add_block` (after the D12 repair). -/
@@ -173,7 +187,7 @@ def addBlock (p : Pool) (blk par : Nat × Nat) : Out :=
           let cs1 := if cs.known.contains blk.2 then cs else { cs with known := cs.known ++ [blk.2] }
           let p2 := putSlot p1 blk.1 cs1
           -- certificate-only regime: `notify_parent_certified` returns `None`, so the entry is always inserted
-          .ok { p2 with s2n := s2nRemove p2.s2n par ++ [(par, blk)] } ann wk
+          .ok { p2 with s2n := p2.s2n ++ [(par, blk)] } ann wk
 
 /-- `add_block` of the pinned snapshot: no `prune()`, state of pruned slots is re-created. -/
 def addBlockOld (p : Pool) (blk par : Nat × Nat) : Out :=
